@@ -61,6 +61,9 @@ package auth
 //@   ensures identity != "" && identity != username ==> result != nil
 //@   ensures !authOK(*s, username, password) ==> result != nil
 //@   ensures result != nil && (identity != "" && identity != username || !authOK(*s, username, password)) ==> gCbCalls == old(gCbCalls)
+// ... and nothing else is refused: credentials AuthPlain accepts (whatever they are - an empty password included, if that
+// is the password stored) reach the success callback, whose answer is the answer.
+//@   ensures (identity == "" || identity == username) && authOK(*s, username, password) ==> gCbCalls == old(gCbCalls) + 1 && gCbIdentity == username && gCbUser == username
 // LOGIN: the same decision and the same identity as PLAIN for the same credentials.
 //@ func (*SASLAuth).CreateSASL$2
 //@   prop C14
@@ -68,3 +71,4 @@ package auth
 //@   modifies gCbCalls, gCbIdentity, gCbUser
 //@   ensures result == nil ==> authOK(*s, username, password) && gCbCalls == old(gCbCalls) + 1 && gCbIdentity == username && gCbUser == username
 //@   ensures !authOK(*s, username, password) ==> result != nil && gCbCalls == old(gCbCalls)
+//@   ensures authOK(*s, username, password) ==> gCbCalls == old(gCbCalls) + 1 && gCbIdentity == username && gCbUser == username
